@@ -1108,6 +1108,30 @@ val run_hsteps :
 
 val run_hist : sx -> sx
 
+val exo_cell : n -> bits -> cell0
+
+val exo_kind : cell0 -> n
+
+val xcell_sx : sx -> cell0 option
+
+val sx_xcell : cell0 -> sx
+
+type dctx = (bits * cell0) list option
+
+val find_lib : (bits * cell0) list -> bits -> cell0 option
+
+val read32 : cell0 -> sx option
+
+val vdec_ref : dctx -> bits -> cell0 list -> sx option
+
+val vdec_cellref : dctx -> bits -> cell0 list -> sx option
+
+val vdec_u32 : dctx -> bits -> cell0 list -> sx option
+
+val libs_sx : sx list -> (bits * cell0) list option
+
+val run_dec : sx -> sx
+
 type strategy =
 | BestPing
 | FirstWorking
@@ -1249,8 +1273,11 @@ val newer : msg option -> msg -> msg
 
 val mk_conns : nat -> (nat -> n) -> (bool * z) list -> conn list
 
+val coalesce : msg -> msg list -> msg
+
 val step0 :
-  strategy -> bool -> nat -> (nat -> n) -> state -> label -> state option
+  strategy -> bool -> bool -> nat -> (nat -> n) -> state -> label -> state
+  option
 
 val init_state : (nat -> n) -> nat option -> state
 
@@ -1330,9 +1357,14 @@ val small : n -> nat
 
 val set_nth_obs : nat -> (bool * z) -> (bool * z) list -> (bool * z) list
 
+val drain_loop :
+  strategy -> nat -> (nat -> n) -> nat -> state -> pend_op list -> sx list ->
+  (state * pend_op list) * sx list
+
 val do_op :
   strategy -> nat -> (nat -> n) -> nat -> nat -> sx -> (bool * z) list ->
-  state -> pend_op list -> ((sx * (bool * z) list) * state) * pend_op list
+  state -> pend_op list -> (((sx * (bool * z) list) * state) * pend_op
+  list) * sx list
 
 val op_index : sx -> nat
 
@@ -1358,6 +1390,11 @@ val return_steps : nat -> wres -> label list
 val verdict : state -> nat -> sx
 
 val wait_scenario :
+  strategy -> nat -> (nat -> n) -> state -> (nat * n) list -> wres -> sx
+
+val handle_one : strategy -> nat -> (nat -> n) -> nat -> state -> state
+
+val wait_batch_scenario :
   strategy -> nat -> (nat -> n) -> state -> (nat * n) list -> wres -> sx
 
 val wait2_scenario :
@@ -1610,11 +1647,17 @@ val run_stateinit : sx -> sx
 
 val proof_of_sx : sx -> proof option
 
+val is_suffix_rev : bytes0 -> bytes0 -> bool
+
+val cd_of : sx -> bytes0 -> bool res
+
 val run_check : sx -> sx
 
 val run_hist0 : sx -> sx
 
 val nominal_now : z
+
+val run_genpayload : sx -> sx
 
 val run_clock : sx -> sx
 
@@ -1642,7 +1685,8 @@ type state0 = { pc : (nat -> call_pc); reg : (n * nat) list;
                 broken : (nat -> bool); rq : (nat -> nat);
                 loops : (nat -> nat); wire : (nat -> packet list);
                 emitted : (n * n) list; delivered : (nat * n) list;
-                since0 : (nat -> nat) }
+                since0 : (nat -> nat); pinger : (nat -> bool);
+                psince : (nat -> nat) }
 
 val set_pc : state0 -> (nat -> call_pc) -> state0
 
@@ -1668,6 +1712,12 @@ val set_delivered : state0 -> (nat * n) list -> state0
 
 val set_since : state0 -> (nat -> nat) -> state0
 
+val set_pinger : state0 -> (nat -> bool) -> state0
+
+val set_psince : state0 -> (nat -> nat) -> state0
+
+val ping_ticks : nat
+
 val silence_ticks : nat
 
 val cupd : (nat -> 'a1) -> nat -> 'a1 -> nat -> 'a1
@@ -1687,6 +1737,8 @@ type label0 =
 | LTimeout of nat
 | LUnregister of nat
 | LDrop of nat
+| LPingOk of nat
+| LPingSkip of nat
 | LPingFail of nat
 | LTick0 of nat
 | LSilence of nat
@@ -1699,6 +1751,8 @@ val step1 : nat -> (nat -> n) -> state0 -> label0 -> state0 option
 val exec : nat -> (nat -> n) -> state0 -> label0 list -> state0 option
 
 val init_state0 : state0
+
+val init_state_without_pinger : state0
 
 val small0 : n -> nat
 
@@ -1753,6 +1807,10 @@ val run_race : sx -> sx
 val is_picked : call_pc -> nat -> bool
 
 val picked_conn : call_pc -> nat option
+
+val tick1 : nat -> state0 -> nat -> state0 option
+
+val ticks : nat -> state0 -> nat -> nat -> state0 option
 
 val event : nat -> state0 -> sx -> state0 option
 
@@ -1929,7 +1987,7 @@ val cell_eqb_sx : ctree -> ctree -> bool
 
 val run_rt_base : sx -> sx
 
-val run_dec : sx -> sx
+val run_dec0 : sx -> sx
 
 val run_cur : sx -> sx
 
@@ -2025,6 +2083,98 @@ val s_TransactionDescr : schema
 val s_Transaction : schema
 
 val s_SignedMsgBody : schema
+
+val s_IntermediateAddress : schema
+
+val s_MsgMetadata : schema
+
+val s_MsgEnvelope : schema
+
+val s_InMsg : schema
+
+val s_OutMsg : schema
+
+val s_EnqueuedMsg : schema
+
+val s_AccountState : schema
+
+val s_AccountStorage : schema
+
+val s_StorageExtraInfo : schema
+
+val s_StorageUsed : schema
+
+val s_StorageInfo : schema
+
+val s_ExistedAccount : schema
+
+val s_Account : schema
+
+val s_ShardAccount : schema
+
+val s_DepthBalanceInfo : schema
+
+val s_ExtBlkRef : schema
+
+val s_BlkMasterInfo : schema
+
+val s_ShardIdent : schema
+
+val s_BlockIdExt : schema
+
+val s_GlobalVersion : schema
+
+val s_ImportFees : schema
+
+val s_ShardFeeCreated : schema
+
+val s_KeyExtBlkRef : schema
+
+val s_KeyMaxLt : schema
+
+val s_ValidatorInfo : schema
+
+val s_ValidatorBaseInfo : schema
+
+val s_Counters : schema
+
+val s_CreatorStats : schema
+
+val s_ProcessedUpto : schema
+
+val s_IhrPendingSince : schema
+
+val s_SigPubKey : schema
+
+val s_CryptoSignatureSimple : schema
+
+val s_ValidatorDescr : schema
+
+val s_ValidatorTempKey : schema
+
+val s_Certificate : schema
+
+val s_StoragePrices : schema
+
+val s_MsgForwardPrices : schema
+
+val s_ParamLimits : schema
+
+val s_BlockLimits : schema
+
+val s_BlockCreateFees : schema
+
+val s_ComplaintPricing : schema
+
+val s_WorkchainFormat1 : schema
+
+val s_WorkchainFormat0 : schema
+
+val s_WcSplitMergeTimings : schema
+
+val s_PrecompiledSmc : schema
+
+val s_CatchainConfig : schema
 
 val ext_in_value : z -> bits -> n -> value option -> ctree -> value
 
@@ -3034,6 +3184,8 @@ val parse_maybe0 : (str -> 'a1 res) -> str -> 'a1 option res
 
 val print_cell : ('a1 -> n list res) -> 'a1 -> str res
 
+val go_index0 : 'a1 list -> 'a1 res
+
 val parse_cell0 : (n list -> 'a1 list res) -> str -> 'a1 res
 
 val fift_chars : bits -> str
@@ -3587,12 +3739,47 @@ type yty =
 | YBinTree of n * yty
 | YHashed of yty
 | YRefRaw of yty
+| YNoLib of yty
 
 val sub_slice : xtree -> bool -> ys option
 
-val ydec : yty list -> (xtree -> bool) -> nat -> yty -> ys -> ct -> ys yres
+val ybody :
+  yty list -> (xtree -> bool) -> (yty -> ys -> ct -> ys yres) -> yty -> ys ->
+  ct -> ys yres
 
-val yunmarshal : yty list -> (xtree -> bool) -> nat -> yty -> xtree -> ys yres
+val ydec :
+  yty list -> (xtree -> bool) -> (xtree -> xtree option) -> nat -> yty -> ys
+  -> ct -> ys yres
+
+val yunmarshal :
+  yty list -> (xtree -> bool) -> (xtree -> xtree option) -> nat -> yty ->
+  xtree -> ys yres
+
+val no_resolver : xtree -> xtree option
+
+val eMap : n
+
+type dkind =
+| DInt
+| DUint
+| DBool
+| DBits256
+| DInt257
+| DBigInt
+| DPtrBits256
+| DPtrInt257
+| DPtrOther
+| DOther
+
+type sint =
+| STiny of z
+| SBig of z
+
+val is_int64 : z -> bool
+
+val nbytes0 : z -> n
+
+val map_int : sint -> dkind -> unit res
 
 val eFrame : n
 
@@ -3651,7 +3838,13 @@ val at_path : xtree -> sx list -> xtree option
 
 val hash_oracle : xtree -> sx list -> xtree -> bool
 
+val resolver_of : sx list -> xtree -> xtree option
+
 val run_tlb0 : sx -> sx
+
+val dkind_of : string -> dkind
+
+val run_mapint : sx -> sx
 
 val out_unit0 : unit res -> sx
 
@@ -3975,6 +4168,12 @@ val create_body_v5r1x :
   (cell -> bytes res) -> ('a1 -> bytes -> bits) -> wallet -> 'a1 -> rawmsg
   list -> extaction list option -> n -> z -> n -> cell res
 
+val default_lifetime_ns : z
+
+val lifetime_of : z option -> z
+
+val expiry : z -> z -> z
+
 val ext_bits : z -> bits -> bool -> bits
 
 val ext_msg : z -> bits -> cell option -> cell -> cell res
@@ -4223,6 +4422,11 @@ val send_v2 :
   (version -> cell) -> (cell -> bytes res) -> ('a1 -> bytes -> bits) ->
   wallet -> 'a1 -> acct option -> rawmsg list -> z -> n -> z -> bool -> poll
   list -> sent
+
+val api_send_v2 :
+  (version -> cell) -> (cell -> bytes res) -> ('a1 -> bytes -> bits) ->
+  wallet -> 'a1 -> z -> z -> acct option -> rawmsg list -> n -> z -> bool ->
+  poll list -> sent
 
 val addr_sx1 : (z * bytes) -> sx
 
